@@ -186,7 +186,8 @@ def run(prop, tier, seed, replay, scratch, t0):
     else:
         cases = corpus_cases(prop) + explore(seed, tier)
     for i, c in enumerate(cases): c['id'] = i
-    ir = impl.run_cases(cases)
+    fresh = getattr(mod, 'FRESH', False)
+    ir = impl.run_cases(cases, fresh=fresh)
     mr = corr.run_model(cases) if build['dmodel_ok'] else [None] * len(cases)
 
     failures = mod.oracle(cases, ir)                    # [{idx, msg, sig}]
@@ -215,7 +216,7 @@ def run(prop, tier, seed, replay, scratch, t0):
         for k in range(1, 6 if tier == 'quick' else 12):
             cs = explore(seed * 1000 + k * 7919 + 13, 'thorough' if k > 2 else tier)
             widened += len(cs)
-            rs = impl.run_cases(cs)
+            rs = impl.run_cases(cs, fresh=fresh)
             fs = [f for f in mod.oracle(cs, rs) if not match_known(f, known)]
             if fs:
                 cases, ir, failures, new_fail = cs, rs, fs, fs
